@@ -19,6 +19,8 @@ import (
 const (
 	ipLoc1 = "198.51.100.7"
 	ipLoc2 = "192.0.2.7"
+	ipLoc3 = "198.18.0.7"  // location id \000\072
+	ipLoc4 = "203.0.113.7" // location id \001\072: same second byte as ipLoc3's
 )
 
 func gen(s int) rl.File { return rl.File{Stamp: s, OK: true, Key: true} }
@@ -164,19 +166,21 @@ func randomQuery(r *hlib.Rng, few bool) rl.ThreadSpec {
 	}
 	v := names[r.Intn(n)]
 	t := q(1+r.Intn(3), v.name, v.qtype, ipLoc1)
-	if r.Chance(1, 2) {
-		t.IP = ipLoc2
-	}
-	if r.Chance(1, 8) {
-		t.IP = "2001:db8::7"
-	}
+	t.IP = []string{ipLoc1, ipLoc2, ipLoc3, ipLoc4, ipLoc3, ipLoc4, ipLoc2, "2001:db8::7"}[r.Intn(8)]
 	if r.Chance(1, 2) {
 		t.Edns = true
-		switch r.Intn(4) {
+		switch r.Intn(6) {
 		case 0:
 			t.ECS = "192.0.2.0/24"
 		case 1:
 			t.ECS = "203.0.113.0/24"
+		case 2:
+			t.ECS = "198.18.0.0/24"
+		case 3:
+			t.ECS = "198.51.100.0/24" // no subnet of its own: default location
+		}
+		if r.Chance(1, 4) {
+			t.EVer = 1 + r.Intn(2) // unsupported EDNS version: BADVERS, warm cache or not
 		}
 	}
 	t.RD = r.Chance(1, 3)
@@ -244,6 +248,44 @@ func collisionHists() []rl.Case {
 		mk("key-collision-other-name", a4, b4), mk("class-in-vs-chaos", a3, b3)}
 }
 
+// the same question alternating between clients whose location ids share one byte:
+// \000\072 / \001\072 (second byte), \000\001 / \000\002 (first byte), \000\072 / \000\002 ...
+func locationHists() []rl.Case {
+	var res []rl.Case
+	for _, v := range []qvar{{"geo.example.com.", 1}, {"example.com.", 15}} {
+		var th []rl.ThreadSpec
+		for _, ip := range []string{ipLoc3, ipLoc4, ipLoc3, ipLoc4, ipLoc1, ipLoc2, ipLoc4, ipLoc2, ipLoc3, ipLoc1} {
+			th = append(th, q(1, v.name, v.qtype, ip))
+		}
+		// the same through ECS from one resolver address
+		for _, ecs := range []string{"198.18.0.0/24", "203.0.113.0/24", "192.0.2.0/24", "198.18.0.0/24"} {
+			t := q(2, v.name, v.qtype, ipLoc1)
+			t.Edns, t.ECS = true, ecs
+			th = append(th, t)
+		}
+		res = append(res, rl.Case{Kind: "hist", Class: "location-bytes", Cfg: rl.Config{Backend: "cdb", Cache: true, LRU: 16}, Disk: stdDisk(0), P0: 0, Threads: th})
+	}
+	return res
+}
+
+// unsupported EDNS versions on a cold and on a warm cache, with and without ECS
+func badversHist() rl.Case {
+	var th []rl.ThreadSpec
+	ver := func(t rl.ThreadSpec, v int, ecs string) rl.ThreadSpec {
+		t.Edns, t.EVer, t.ECS = true, v, ecs
+		return t
+	}
+	for _, base := range []rl.ThreadSpec{q(1, "www.example.com.", 1, ipLoc1), q(2, "geo.example.com.", 1, ipLoc2), q(1, "nx.example.com.", 1, ipLoc1)} {
+		th = append(th, ver(base, 1, ""))             // cold
+		th = append(th, base)                         // fills the cache (no EDNS)
+		th = append(th, ver(base, 0, ""))             // hit, version 0
+		th = append(th, ver(base, 1, ""))             // warm, version 1
+		th = append(th, ver(base, 2, "192.0.2.0/24")) // warm, version 2 with ECS
+		th = append(th, ver(base, 0, "192.0.2.0/24")) // version 0 with ECS again
+	}
+	return rl.Case{Kind: "hist", Class: "badvers-warm", Cfg: rl.Config{Backend: "cdb", Cache: true, LRU: 16}, Disk: stdDisk(0), P0: 0, Threads: th}
+}
+
 func expiryHist() rl.Case {
 	// weighted answers cached for one second: hit, then expired after the wait
 	w := q(1, "wrr.example.com.", 1, ipLoc1)
@@ -261,10 +303,11 @@ func generate(a *hlib.Args) []rl.Case {
 		cases = append(cases, shapeF6(be), shapeInsertBeforePurge(be), shapeHitThenReload(be))
 	}
 	cases = append(cases, collisionHists()...)
-	cases = append(cases, expiryHist())
+	cases = append(cases, expiryHist(), badversHist())
+	cases = append(cases, locationHists()...)
 	n := a.N
 	for i := 0; i < n; i++ {
-		cases = append(cases, randomHist(r, "cdb", 10+r.Intn(30)))
+		cases = append(cases, randomHist(r, "cdb", 8+r.Intn(22)))
 	}
 	for i := 0; i < n/3; i++ {
 		cases = append(cases, randomSched(r, "cdb", 2+r.Intn(2)))
